@@ -6,6 +6,7 @@ import (
 	"os/exec"
 	"strconv"
 	"strings"
+	"sync"
 
 	"github.com/robfig/soy/ast"
 	"github.com/robfig/soy/soymsg"
@@ -254,7 +255,7 @@ func init() {
 			"attributes, self-closing), colliding base names ($a.x $b.x $x_1), plurals with any case set, with and without meaning. For each: (a) ids and placeholder strings identical over 20 " +
 			"(thorough 100) compilations in-process and in a separate process; (b) unchanged under another description, surrounding code, sibling messages and position; (c) changed by a change " +
 			"of text, meaning, placeholder name, part order or plural structure; (d) equal to a re-implementation of the official algorithm (self-tested against ids of the official extractor) " +
-			"where that algorithm is unambiguous. distinct = distinct message source; non-trivial = has a placeholder or >= 12 bytes of text",
+			"where that algorithm is unambiguous; (f) 12 long messages keep the ids they have alone while 24 goroutines compile them concurrently. distinct = distinct message source; non-trivial = has a placeholder or >= 12 bytes of text",
 		N: func(tier string) int {
 			if tier == "thorough" {
 				return 40000
@@ -379,6 +380,61 @@ func init() {
 					}
 				}
 			}
+			// (f) other messages compiled at the same time by other goroutines: each message keeps the id it has alone
+			if i%24 == 0 {
+				const nMsgs = 12
+				srcs := make([]string, nMsgs)
+				alone := make([]c10Obs, nMsgs)
+				for k := range srcs {
+					mk := c10Msg(fw.NewRand(seed + 1000 + uint64(k)))
+					// long texts: the ids are computed over the whole text
+					long := &ref.Raw{Text: " " + strings.Repeat(c10Text(fw.NewRand(seed+2000+uint64(k)))+" ", 40)}
+					if pl, isPl := mk.Body[0].(*ref.Plural); isPl {
+						pl.Default = append(pl.Default, long)
+					} else {
+						mk.Body = append(mk.Body, long)
+					}
+					srcs[k] = c10File([]*ref.Msg{mk}, 0)
+					o, err := c10Compile(srcs[k])
+					if err != nil || len(o) != 1 {
+						return fw.Result{Verdict: fw.Inconclusive, Key: "variant-does-not-compile", Msg: fmt.Sprint(err), Case: srcs[k]}
+					}
+					alone[k] = o[0]
+				}
+				rounds := 6
+				if ctx.Tier == "thorough" {
+					rounds = 20
+				}
+				const workers = 24
+				bad := make(chan string, workers)
+				var wg sync.WaitGroup
+				for w := 0; w < workers; w++ {
+					wg.Add(1)
+					go func(w int) {
+						defer wg.Done()
+						for rd := 0; rd < rounds; rd++ {
+							for k := 0; k < nMsgs; k++ {
+								j := (k + w) % nMsgs
+								o, err := c10Compile(srcs[j])
+								if err != nil || len(o) != 1 || o[0] != alone[j] {
+									select {
+									case bad <- fmt.Sprintf("message %d: alone it has id %d, compiled while %d other goroutines compile other messages it got %v (err %v)", j, alone[j].id, workers-1, o, err):
+									default:
+									}
+									return
+								}
+							}
+						}
+					}(w)
+				}
+				wg.Wait()
+				ctx.Obs("concurrent_compilations", int64(workers*rounds*nMsgs))
+				select {
+				case why := <-bad:
+					return fw.Result{Verdict: fw.Violated, Key: "id-depends-on-concurrent-compilations", Case: map[string]interface{}{"sources": srcs}, Msg: why}
+				default:
+				}
+			}
 			// (d) the official algorithm
 			if !info.Ambiguous {
 				ctx.Obs("official_algorithm_compared", 1)
@@ -402,6 +458,9 @@ func init() {
 			var why []string
 			if obs["process_boundaries_crossed"] == 0 {
 				why = append(why, "no process boundary crossed")
+			}
+			if obs["concurrent_compilations"] == 0 {
+				why = append(why, "no concurrent compilation")
 			}
 			if obs["official_algorithm_compared"] == 0 || obs["content_changes"] == 0 || obs["context_variants"] == 0 {
 				why = append(why, "one of the four oracles never ran")
